@@ -3,10 +3,11 @@ import CedarVerif.Lemmas.SyntaxSplitOn
 import CedarVerif.Lemmas.SyntaxPolicy
 import CedarVerif.Lemmas.SyntaxPolicySound
 import CedarVerif.Lemmas.SyntaxLex
+import CedarVerif.Lemmas.SyntaxLexWF
 import CedarVerif.Cedar.Eval
 /-
 C05 — policy text → AST → text round trip.  Property theorems (every `theorem` here is an obligation).
-Model: Cedar/Syntax/{Token,Escape,Print,Parse}.lean.
+Model: Cedar/Syntax/{Token,Escape,Print,Parse,PolicyPrint,PolicyParse,Lex}.lean.
 
 What is proved about `Parse.expr (Print.expr me e) = some e` (for every escape table `me`):
 * `parse_print_full : ParsePrintFull` — THE FULL STATEMENT: for every AST in `ParserImage` (what `cst_to_ast` can produce).
@@ -40,13 +41,23 @@ Lemmas/SyntaxPolicy.lean):
 * `annotation_round_trip` — annotation values with arbitrary content survive `escape_debug` printing and unescaping.
 * `policy_round_trip_text` — from text: a token list the model parser accepts with a result in `PolicyImage` re-parses
   to the same object after printing.
-* `PolicyParseImage` (a `def … : Prop`, NOT proved): the policy parser only returns `PolicyImage` objects on well-formed
-  tokens.  Missing: the parser-invariant induction for `parseAnnots`/`scopeElem`/`actionElem`/`parseConds` (the expression
-  part is `parse_image`), including that `foldr insertAnn` sorts and that `mkAnd`-folding stays in `ParserImage`.
-  Until then the several-clause forms (`when … unless …`) enter the theorems through their folded image only; that the
-  fold is what Rust computes is checked by the `polparse` correspondence lines.
-Not covered by theorems: the lexer (text → tokens; checked on the implementation by the harness, whose tokenizer is
-trusted); policy sets; the EST printer; the nesting-depth limit of the real parser (the model has none).
+* `policy_parse_image : PolicyParseImage` — soundness of the policy image predicate: on well-formed tokens (`TokWF`) the
+  policy parser only returns `PolicyImage` objects (parser-invariant induction for `parseAnnots` / `scopeElem` / `actionElem` /
+  `parseConds`, Lemmas/SyntaxPolicySound.lean: `foldr insertAnn` sorts a duplicate-free list, `mkAnd`-folding of several
+  `when`/`unless` clauses stays in `ParserImage` and slot-free).  No parser arm leaves the image.
+* `policy_round_trip_text_full` — from text WITHOUT an image hypothesis: whatever well-formed token list the model parser
+  accepts (any number of clauses), printing the result and parsing again gives the same object.
+LEXER (model: Cedar/Syntax/Lex.lean, mirror of the `match { … }` block of grammar.lalrpop: `\s*`, `//` comments, identifiers /
+keywords, `[0-9]+` by value, `"(\\.|[^"\\])*"` kept raw, slots, two-character punctuation first; proofs: Lemmas/SyntaxLex.lean):
+* `lex_tokWF` — the lexer only returns identifier-shaped `IDENTIFIER` tokens (the `TokWF` hypothesis of the parser theorems);
+  `policy_round_trip_chars` — from characters: any text `lex` + `parsePolicy` accept round-trips, no side hypothesis.
+* `lex_print` — for every list `ts` of lexer-producible tokens (`TokOK`: identifier-shaped `IDENTIFIER`s, string tokens
+  matching the `STRINGLIT` body regex, slots `?ident`; full token alphabet), `lex (render ts) = some ts`, `render` = tokens
+  separated by single spaces (the harness's `render`; Rust's `Display` uses tighter spacing — its output is covered by the
+  `(lex …)` / `(lexpolparse …)` correspondence lines, not by this theorem).
+Not covered by theorems: that the printers' tokens satisfy `TokOK` (identifiers come from `ParserImage` ASTs, string tokens
+from `escapeStr`: plausible, not proved); the exact spacing of `Display`; policy sets;
+the EST printer; the nesting-depth limit of the real parser (the model has none).
 -/
 namespace Cedar.C05
 open Cedar Cedar.Syntax
@@ -689,5 +700,27 @@ example : lex "\"a\\\nb\"".toList = none := by decide +kernel   -- backslash-new
 example : lex "a & b".toList = none := by decide +kernel
 example : lex "\"abc".toList = none := by decide +kernel
 example : lex "? x".toList = none := by decide +kernel
+
+/-- the lexer guarantees the well-formedness the parser theorems assume: every `IDENTIFIER` token it returns is
+identifier-shaped -/
+theorem lex_tokWF (cs : List Char) (ts : List Token) (h : lex cs = some ts) : TokWF ts :=
+  lexFuel_tokWF _ cs ts h
+
+/-- **From characters**: whatever policy TEXT the model lexer + parser accept, printing the parsed object (any escape table)
+and parsing the tokens again gives the same object — no hypothesis on tokens or image left. -/
+theorem policy_round_trip_chars (mustEscape : Char → Bool) (id : String) (text : List Char) (ts : List Token) (b : TemplateBody)
+    (hl : lex text = some ts) (h : parsePolicy id ts = some b) :
+    parsePolicy b.id (printPolicy mustEscape b) = some b := by
+  rw [policy_round_trip_text_full mustEscape id ts (lex_tokWF text ts hl) b h, h]
+
+example : ∃ b, parsePolicy "p" ((lex "@a(\"x\")permit(principal,action,resource)when{1<2}unless{false};".toList).getD []) = some b ∧
+    PolicyImage b = true := by
+  cases h : parsePolicy "p" ((lex "@a(\"x\")permit(principal,action,resource)when{1<2}unless{false};".toList).getD []) with
+  | none => exact absurd h (by decide +kernel)
+  | some b =>
+    refine ⟨b, rfl, policy_parse_image "p" _ b ?_ h⟩
+    cases hl : lex "@a(\"x\")permit(principal,action,resource)when{1<2}unless{false};".toList with
+    | none => intro s hs; simp at hs
+    | some ts => simpa using lex_tokWF _ ts hl
 
 end Cedar.C05
